@@ -337,6 +337,9 @@ class Engine:
             return smt.TRUTH(v.t)
         if isinstance(v, (FnV, ClosureV, ClassV, InstV, DSRefV, BuiltinV, BoundV, ExcSpecV, StageV)):
             return smt.T
+        h = self.ctx_hook('truth_hook', None, v)
+        if h is not None:
+            return h
         raise Unsupported('truthiness of %r' % (v,))
 
     # ------------------------------------------------------------------ statements
@@ -367,6 +370,12 @@ class Engine:
             raise Unsupported('statement %s at line %d' % (type(s).__name__, s.lineno))
         res, raised = self.with_sink(lambda: m(s, st))
         return list(res) + raised
+
+    def stmt_Delete(self, s, st):
+        h = self.ctx_hook('delete_stmt', s, st)
+        if h is not None:
+            return h
+        raise Unsupported('del statement')
 
     def stmt_Pass(self, s, st):
         return [Outcome('normal', st)]
@@ -758,6 +767,9 @@ class Engine:
             if z3.is_true(z3.simplify(cell['pos'].t == 0)) and z3.is_false(z3.simplify(cell['done'].t)):
                 return self._stream_descr(cell['stream'].view)     # a fresh iterator: its whole stream
             raise Unsupported('for-loop over a partly consumed iterator')
+        h = self.ctx_hook('iter_obj_descr', st, it)
+        if h is not None:
+            return h
         raise Unsupported('iteration over %r' % (it,))
 
     def _stream_descr(self, sv):
@@ -1078,6 +1090,9 @@ class Engine:
             if isinstance(recv, SymSeqV) and attr == 'ndim':
                 return [(st, IntV(1))]
             return [(st, BoundV(recv, attr))]
+        h3 = self.ctx_hook('any_getattr', st, recv, attr)
+        if h3 is not None:
+            return h3
         raise Unsupported('attribute %s of %r' % (attr, recv))
 
     def class_attr_lookup(self, cls, attr):
@@ -1358,6 +1373,9 @@ class Engine:
             h = self.ctx_hook('stage_method', st, recv, name, args, kwargs)
             if h is not None:
                 return h
+        hm = self.ctx_hook('any_method', st, recv, name, args, kwargs)
+        if hm is not None:
+            return hm
         if isinstance(recv, RngV):
             h = self.ctx_hook('rng_method', st, recv, name, args, kwargs)
             if h is not None:
@@ -1606,6 +1624,9 @@ class Engine:
             return [(st, TupleV(x.items))]
         if isinstance(x, SymSeqV):
             return [(st, x.retype('tuple'))]
+        h = self.ctx_hook('builtin_hook', st, 'tuple', args, kwargs, node)
+        if h is not None:
+            return h
         raise Unsupported('tuple(%r)' % (x,))
 
     def bi_list(self, args, kwargs, st, node):
@@ -2221,7 +2242,13 @@ class Engine:
         return res
 
     def expr_Slice(self, node, st):
-        raise Unsupported('slice expression')
+        def const(n):
+            if n is None:
+                return None
+            if isinstance(n, ast.Constant) and isinstance(n.value, int):
+                return n.value
+            raise Unsupported('non-constant slice bound')
+        return [(st, PySliceV(const(node.lower), const(node.upper), const(node.step)))]
 
     def seq_index(self, st, length, i, getter):
         res = []
@@ -2266,6 +2293,8 @@ class Engine:
             return self.seq_index(st, recv.m, idx.t, recv.at)
         if isinstance(recv, ListV) and isinstance(idx, IntV):
             return self.seq_index(st, z3.Length(recv.seq), idx.t, lambda p: ObjV(recv.seq[p]))
+        if isinstance(recv, TupleV) and isinstance(idx, PySliceV):
+            return [(st, TupleV(recv.items[slice(idx.lo, idx.hi, idx.step)], recv.is_list))]
         if isinstance(recv, TupleV) and isinstance(idx, IntV) and z3.is_int_value(z3.simplify(idx.t)):
             i = z3.simplify(idx.t).as_long()
             if -len(recv.items) <= i < len(recv.items):
@@ -2299,12 +2328,21 @@ class Engine:
         return res
 
     def expr_Dict(self, node, st):
+        h = self.ctx_hook('dict_display', st, node)
+        if h is not None:
+            return h
         if not node.keys:
             return [(st, EmptyDictV())]
         h = self.ctx_hook('dict_display', st, node)
         if h is not None:
             return h
         raise Unsupported('dict display')
+
+    def expr_Set(self, node, st):
+        h = self.ctx_hook('builtin_hook', st, 'set', [], {}, node)
+        if h is not None:
+            return h
+        raise Unsupported('set display')
 
     def expr_DictComp(self, node, st):
         h = self.ctx_hook('dict_comp', st, node)
@@ -2412,6 +2450,13 @@ class NumFnV(Val):
 
     def __init__(self, t):
         self.t = t
+
+
+class PySliceV(Val):
+    kind = 'pyslice'
+
+    def __init__(self, lo, hi, step):
+        self.lo, self.hi, self.step = lo, hi, step
 
 
 class NdArrV(Val):
